@@ -208,11 +208,12 @@ public:
 	/**
 	Sends the content of the given file in the message body
 	*/
-	void writeFile(const String& path, int begin = 0, int end = 0);
+	void writeFile(const String& path, int begin = 0, int end = -1);
 	/**
-	Sends the content of the given file as the message body and sets the content-length header
+	Sends the content of the given file as the message body and sets the content-length header;
+	`begin` and `end` are the first and last byte to send (a negative `end` means up to the end of the file)
 	*/
-	bool putFile(const String& path, int begin = 0, int end = 0);
+	bool putFile(const String& path, int begin = 0, int end = -1);
 
 	HttpMessage& onProgress(const Function<void, const HttpStatus&>& f) { _progress = f; return *this; }
 
